@@ -45,20 +45,36 @@ def dispatch_ops(repo: Repo) -> List[Op]:
         return _ops_cache[id(repo)]
     uv = undecided_class(repo)
     ops: List[Op] = []
+    # the class switch: a self-method whose body assigns `self.__class__ = <its parameter>` (today `_change`), or the
+    # assignment `self.__class__ = <Class>` written out in the operator method itself
+    switchers = set()
     for name, f in uv.methods.items():
+        if len(f.params) >= 2:
+            for n in body_nodes(f.node):
+                if isinstance(n, ast.Assign) and any(isinstance(t, ast.Attribute) and t.attr == "__class__" and isinstance(t.value, ast.Name) and t.value.id == f.params[0] for t in n.targets) and isinstance(n.value, ast.Name) and n.value.id == f.params[1]:
+                    switchers.add(name)
+    for name, f in uv.methods.items():
+        if name in switchers or not f.params:
+            continue
         for n in body_nodes(f.node):
+            target = None
             if (
                 isinstance(n, ast.Call)
                 and isinstance(n.func, ast.Attribute)
-                and n.func.attr == "_change"
+                and n.func.attr in switchers
                 and isinstance(n.func.value, ast.Name)
                 and n.func.value.id == f.params[0]
                 and n.args
                 and isinstance(n.args[0], ast.Name)
             ):
-                k = repo.resolve_class(uv.module, n.args[0])
+                target = n.args[0]
+            if isinstance(n, ast.Assign) and any(isinstance(t, ast.Attribute) and t.attr == "__class__" and isinstance(t.value, ast.Name) and t.value.id == f.params[0] for t in n.targets) and isinstance(n.value, ast.Name):
+                target = n.value
+            if target is not None:
+                n_args0 = target
+                k = repo.resolve_class(uv.module, n_args0)
                 if k is None:
-                    raise AnalysisError(f"dispatch class {n.args[0].id} of UndecidedValue.{name} not resolvable")
+                    raise AnalysisError(f"dispatch class {n_args0.id} of UndecidedValue.{name} not resolvable")
                 m = repo.lookup_method(k, name)
                 if m is None:
                     raise AnalysisError(f"{k.name} has no {name}")
@@ -205,3 +221,43 @@ def stale_bindings(repo: Repo, rep, names, why: str, strict_rebinders=()):
 
 
 PKG_PREFIX = "src/inline_snapshot/"
+
+
+def reeval_worker(repo: Repo):
+    """The function that checks a re-evaluated argument against the stored value - found by what it does (it raises the
+    'snapshot value should not change' UsageError and is entered from GenericValue._re_eval with the stored old value),
+    nested in GenericValue._re_eval or anywhere in generic_value.py.
+    Returns (func, name of the old-value parameter, node parameter, new-value parameter, entry call in GenericValue._re_eval) or None."""
+    outer = repo.find_func("_snapshot/generic_value.py", "GenericValue._re_eval")
+    if outer is None:
+        return None
+    cands = []
+    for g in repo.pkg_funcs():
+        if g.module.rel != "_snapshot/generic_value.py" or g is outer:
+            continue
+        raises = any(isinstance(x, ast.Raise) and x.exc is not None and "UsageError" in norm(x.exc) for x in body_nodes(g.node))
+        called = any(isinstance(c, ast.Call) and isinstance(c.func, ast.Name) and c.func.id == g.name for c in body_nodes(outer.node))
+        if raises and called:
+            cands.append(g)
+    if len(cands) != 1:
+        return None
+    g = cands[0]
+    entry = None
+    for c in body_nodes(outer.node):
+        if isinstance(c, ast.Call) and isinstance(c.func, ast.Name) and c.func.id == g.name:
+            entry = c
+    old = None
+    if entry is not None:
+        for i, a in enumerate(entry.args):
+            if "_old_value" in norm(a) and i < len(g.params):
+                old = g.params[i]
+    if old is None:
+        for x in body_nodes(g.node):
+            if isinstance(x, ast.Call) and norm(x.func) == "isinstance" and len(x.args) == 2 and "Unmanaged" in norm(x.args[1]) and isinstance(x.args[0], ast.Name) and x.args[0].id in g.params:
+                old = x.args[0].id
+    if old is None:
+        return None
+    i = g.params.index(old)
+    node = g.params[i + 1] if len(g.params) > i + 1 else None
+    val = g.params[i + 2] if len(g.params) > i + 2 else None
+    return g, old, node, val, entry
